@@ -30,7 +30,7 @@ from core import Eval
 
 PROPERTY = "C19"
 DRIVER = "drv_c19"
-PROPS = ["PartituraModel.Props.C19"]
+PROPS = ["PartituraModel.Props.C19", "PartituraModel.Props.C19Write", "PartituraModel.Props.C19Dispatch"]
 TRUSTED = [
     "lxml tokenisation of the MEI text into open/close events (the harness does nothing else to the document)",
     "numpy loadtxt/genfromtxt splitting of kern rows into cells",
@@ -1360,12 +1360,15 @@ def py_kern_exportable(part):
                     return False
             if nexts[(n.voice or 0, n.staff or 0)] != tp.t:
                 return False
-        seen = set()
+        first = {}
         for n in notes:
             c = (n.voice or 0, n.staff or 0)
-            if not isinstance(n, S.GraceNote) and c not in seen:
-                seen.add(c)
-                nexts[c] = tp.t + (n.end.t - n.start.t)
+            if not isinstance(n, S.GraceNote):
+                if c not in first:
+                    first[c] = n.end.t - n.start.t
+                    nexts[c] = tp.t + first[c]
+                elif first[c] != n.end.t - n.start.t:
+                    return False        # a chord of unequal lengths
     return True
 
 
@@ -1505,6 +1508,17 @@ def build_part(asc, with_tuplets=True, with_rests=True, xopt=None):
                 t0 += lens[m]
     # the order in which the notes enter the part decides the order in which the writers meet the notes of one
     # time point: voice by voice (default), or any order
+    if xopt.get("wrongdur") is not None:
+        # NOT exportable on purpose: one note or rest whose symbolic duration is not worth its length
+        # (not a chord note: a chord of unequal written lengths is outside the supported kern subset)
+        from collections import Counter as _C
+        sizes = _C((o.voice, a) for (o, a, b) in pending_adds if not isinstance(o, S.GraceNote))
+        cand = [o for (o, a, b) in pending_adds if not isinstance(o, S.GraceNote) and sizes[(o.voice, a)] == 1]
+        if cand:
+            o = cand[xopt["wrongdur"] % len(cand)]
+            sd = dict(o.symbolic_duration)
+            sd["type"] = "half" if sd.get("type") == "whole" else "whole"
+            o.symbolic_duration = sd
     if xopt.get("shuffle"):
         xr.shuffle(pending_adds)
     if xopt.get("order"):
@@ -1560,7 +1574,7 @@ def eval_export(d):
         from collections import Counter
 
         missing = list((Counter(facts) - Counter(got)).elements())
-        if missing:
+        if missing and not d.get("nonexp"):
             extra = list((Counter(got) - Counter(facts)).elements())
             ev.oracle.append("roundtrip: %d of %d notes not found again (onset,dur,kind,step,alter,oct,staff), e.g. %s; instead %s" % (
                 len(missing), len(facts), [tuple(map(str, m)) for m in sorted(missing)[:3]], [tuple(map(str, m)) for m in sorted(extra)[:3]]))
@@ -1700,6 +1714,118 @@ def eval_dispatch(d):
     return ev
 
 
+
+# ---------------------------------------------------------------------------- which reader does load_score call?
+READERS = ("load_musicxml", "load_score_midi", "load_mei", "load_kern", "load_via_musescore", "load_match")
+
+
+def dispatch_table_from_source():
+    """the if / elif chain of load_score, read off the source text: [(extension, reader name)] in source order"""
+    import ast
+
+    src = open(os.path.join(REPO, "partitura", "io", "__init__.py"), encoding="utf-8").read()
+    fn = next(n for n in ast.walk(ast.parse(src)) if isinstance(n, ast.FunctionDef) and n.name == "load_score")
+    rows = []
+
+    def walk_if(node):
+        t = node.test
+        if (isinstance(t, ast.Compare) and isinstance(t.left, ast.Name) and t.left.id == "extension"
+                and len(t.ops) == 1 and isinstance(t.ops[0], ast.In)):
+            exts = [e.value for e in t.comparators[0].elts]
+            called = [c.func.id for st in node.body for c in ast.walk(st)
+                      if isinstance(c, ast.Call) and isinstance(c.func, ast.Name) and c.func.id in READERS]
+            for e in exts:
+                rows.append((e, called[0] if called else "?"))
+            for o in node.orelse:
+                if isinstance(o, ast.If):
+                    walk_if(o)
+
+    for st in fn.body:
+        if isinstance(st, ast.If) and isinstance(st.test, ast.Compare) and getattr(st.test.left, "id", "") == "extension":
+            walk_if(st)
+    return rows
+
+
+def which_reader(path):
+    """call the real load_score on the path with the six readers replaced by recorders (nothing is read)"""
+    from unittest import mock
+    import partitura.io as PIO
+
+    called = []
+
+    def rec(name):
+        def f(*a, **kw):
+            called.append(name)
+            return (None, None, "score") if name == "load_match" else "score"
+        return f
+
+    patches = [mock.patch.object(PIO, name, rec(name)) for name in READERS]
+    for p_ in patches:
+        p_.start()
+    try:
+        try:
+            PIO.load_score(path)
+        except PIO.NotSupportedFormatError:
+            return "err"
+        except Exception as e:
+            return "exc:" + type(e).__name__
+    finally:
+        for p_ in patches:
+            p_.stop()
+    return called[0] if len(called) == 1 else "calls:%r" % (called,)
+
+
+def py_splitext_ext(path):
+    """posixpath.splitext by its documentation, restated: the extension is what follows the last dot of the last
+    component (dot included) unless only dots precede it"""
+    base = path.rsplit("/", 1)[-1]
+    if "." not in base:
+        return ""
+    stem, ext = base.rsplit(".", 1)
+    if stem.strip(".") == "":
+        return ""
+    return "." + ext
+
+
+def gen_paths(rng, n):
+    exts = [e for e, _ in dispatch_table_from_source()]
+    unknown = [".humdrum", ".meix", ".txt", ".krn~", ".xml.bak", ".mid2", ".MXL1", ".k", ".", ""]
+    res = []
+    for _ in range(n):
+        dirs = "/".join(rng.choice(["tmp", "a.b", ".cache", "dir.krn", "x", "My Scores", "op.1"]) for _ in range(rng.randint(0, 3)))
+        stem = rng.choice(["piece", "Sonata.No.2", ".hidden", "..x", "", ".", "..", "a", "score.mei", "x.krn.bak", "UPPER"])
+        r = rng.random()
+        if r < 0.6:
+            e = rng.choice(exts)
+            e = "".join(ch.upper() if rng.random() < 0.4 else ch for ch in e)
+        elif r < 0.9:
+            e = rng.choice(unknown)
+        else:
+            e = rng.choice(exts)[1:]        # the extension without its dot
+        res.append(("/" if rng.random() < 0.7 else "") + (dirs + "/" if dirs else "") + stem + e)
+    return res
+
+
+def eval_dispatch2(d):
+    ev = Eval()
+    rows = dispatch_table_from_source()
+    ev.requests.append("dtab")
+    ev.impl.append(W.f_list(lambda r: W.f_tuple(r[0], r[1]), rows))
+    if len(set(e for e, _ in rows)) != len(rows):
+        ev.oracle.append("dispatch: an extension is listed twice in load_score")
+    want = dict(rows)
+    for path in d["paths"]:
+        got = which_reader(path)
+        ev.requests.append("disp " + W.s(path))
+        ev.impl.append(got)
+        # oracle: the reader documented for the lower-cased extension, nothing for any other
+        exp = want.get(py_splitext_ext(path).lower(), "err")
+        if got != exp:
+            ev.oracle.append("dispatch: load_score(%r) -> %s, the extension %r asks for %s" % (path, got, py_splitext_ext(path), exp))
+    ev.key = "dispatch2:" + "|".join(d["paths"])
+    return ev
+
+
 # ============================================================================ cases
 def rand_layout(rng):
     return {"same_part": rng.random() < 0.5, "split": rng.random() < 0.5, "bar0": rng.random() < 0.85,
@@ -1715,6 +1841,8 @@ def cases(rng, tier):
     chord_ties = True       # repaired by fixes/C19-27 (was the open finding F-C19-kern-chord-ties)
     yield {"k": "tables"}
     yield {"k": "dispatch"}
+    for _ in range({"quick": 3, "thorough": 40}.get(tier, 3)):
+        yield {"k": "dispatch2", "paths": gen_paths(random.Random(rng.getrandbits(48)), 40)}
     for fmt, pth in fixture_paths():
         yield {"k": "fixture", "fmt": fmt, "path": pth}
     for i in range(n):
@@ -1744,7 +1872,11 @@ def cases(rng, tier):
                     "grace_types": r.choice([["grace"], ["grace", "acciaccatura", "appoggiatura"]]),
                     "keychg": {str(m): r.randint(-7, 7) for m in range(1, n_measures(asc)) if r.random() < 0.3},
                     "first_number": r.choice([0, 0, 0, 9]), "divmul": r.choice([1, 1, 1, 2, 3])}
-            yield {"k": kind, "asc": asc, "seed": seed, "rests": True if kind == "xkern" else r.random() < 0.6, "xopt": xopt}
+            dd = {"k": kind, "asc": asc, "seed": seed, "rests": True if kind == "xkern" else r.random() < 0.6, "xopt": xopt}
+            if kind == "xkern" and r.random() < 0.12:
+                xopt["wrongdur"] = r.randrange(1000)
+                dd["nonexp"] = True       # outside the writers' domain: only model = code is compared, nothing is demanded
+            yield dd
 
 
 def evaluate(d):
@@ -1761,6 +1893,8 @@ def evaluate(d):
         return eval_fixture(d)
     if k == "dispatch":
         return eval_dispatch(d)
+    if k == "dispatch2":
+        return eval_dispatch2(d)
     raise ValueError("unknown case kind %r" % k)
 
 
@@ -1773,6 +1907,16 @@ def eval_tables(d):
     ev.impl.append(W.f_list(lambda kv: W.f_tuple(kv[0], kv[1][0], W.f_int(kv[1][1])), IK.KERN_NOTES.items()))
     ev.requests.append("ktab durs")
     ev.impl.append(W.f_list(lambda kv: W.f_tuple(kv[0], kv[1]["type"]), IK.KERN_DURS.items()))
+    ev.requests.append("ktab wdurs")
+    ev.impl.append(W.f_list(lambda kv: W.f_tuple(kv[0], kv[1]), EK.KERN_DURS.items()))
+    ev.requests.append("ktab wacc")
+    ev.impl.append(W.f_list(lambda kv: W.f_tuple(W.f_int(kv[0]), kv[1]), EK.ACC_TO_SIGN.items()))
+    ev.requests.append("ktab wnotes")
+    ev.impl.append(W.f_list(lambda st: W.f_tuple(st, EK.KERN_NOTES[(st, 3)], EK.KERN_NOTES[(st, 4)]), STEPS))
+    if sorted(EK.KERN_NOTES) != sorted((st, o) for st in STEPS for o in (3, 4)):
+        ev.oracle.append("tables: exportkern.KERN_NOTES has other keys than the seven steps in octaves 3 and 4")
+    ev.requests.append("ktab wkeys")
+    ev.impl.append("".join(EK.KEYS))
     if {v: k for k, v in EK.KERN_NOTES.items()} != dict(IK.KERN_NOTES):
         ev.oracle.append("tables: exportkern.KERN_NOTES is not the inverse of importkern.KERN_NOTES")
     if {v: k for k, v in EK.KERN_DURS.items()} != {k: v["type"] for k, v in IK.KERN_DURS.items()}:
